@@ -65,7 +65,9 @@ def decompress(blob):
                 raise ValueError("zstd: corrupt stream")
             out += dst.raw[:outb.pos]
             last = r
-            if inb.pos >= inb.size and outb.pos < chunk:
+            if inb.pos >= inb.size and (r == 0 or outb.pos < chunk):
+                # all input consumed and either the frame is complete (r == 0, also when the output exactly filled the
+                # buffer) or the decoder has nothing more to give
                 break
         if last != 0:
             raise ValueError("zstd: truncated stream")
